@@ -20,10 +20,45 @@ class Fresh:
         self.n += 1
         return self.n
 
-def gen_family(rng, prefix, kind, alphabet, count, nthreads, nops, mode, prefill_max=2, iter_threads=0, opts=None):
+def lag_script(rng):
+    """set-up script of Offer bursts and Poll bursts (negative entry = Poll): leaves head and tail lagging
+    behind, dead and self-linked nodes near them - the shapes the help-along / fell-off-list paths exist for"""
+    out, live, nxt = [], 0, 1
+    for _ in range(rng.choice([1, 2, 2, 3])):
+        for _ in range(rng.randint(1, 5)):
+            out.append(nxt); nxt += 1; live += 1
+        for _ in range(rng.randint(1, live)):
+            out.append(-1); live -= 1
+    return out
+
+def gen_lag_sweep(tier, rng, prefix="s", mode=None, pats=None):
+    """systematic sweep over set-up shapes (a Offers, b Polls, c Offers, d Polls; a, c <= 5): the parity of the
+    hops decides where head and tail lag, which a random script rarely varies; each shape is followed by a short
+    producer / consumer mix with one goroutine suspended for good at every one of its access points"""
+    pats = pats or [lambda v: [["o%d" % v], ["p", "o%d" % (v + 1)]],
+            lambda v: [["o%d" % v], ["o%d" % (v + 1), "p"]],
+            lambda v: [["p"], ["o%d" % v, "p"]],
+            lambda v: [["o%d" % v], ["p"], ["o%d" % (v + 1)]]]
+    out = []
+    for a in range(1, 6):
+        for b in range(0, a + 1):
+            for c in range(0, 6):
+                for d in range(0, a - b + c + 1):
+                    pre = list(range(1, a + 1)) + [-1] * b + list(range(a + 1, a + c + 1)) + [-1] * d
+                    use = pats if tier != "quick" else [pats[0] if rng.random() < 0.5 else rng.choice(pats[1:])]
+                    for k, pat in enumerate(use):
+                        out.append(conc.Scn("%s%d%d%d%d_%d" % (prefix, a, b, c, d, k), "jdk", pre, pat(a + c + 1),
+                                            mode(rng) if mode else "freeze %d %d" % (scale(tier, 2, 4), rng.randint(1, 1 << 30))))
+    return out
+
+def gen_family(rng, prefix, kind, alphabet, count, nthreads, nops, mode, prefill_max=2, iter_threads=0, opts=None, script=None):
     out = []
     for i in range(count):
         npre = rng.randint(0, prefill_max)
+        pre = list(range(1, npre + 1))
+        if script is not None:
+            pre = script(rng)
+            npre = max([0] + pre)
         fresh = Fresh(npre)
         nt = rng.choice(nthreads) if isinstance(nthreads, (list, tuple)) else nthreads
         ths = []
@@ -38,7 +73,7 @@ def gen_family(rng, prefix, kind, alphabet, count, nthreads, nops, mode, prefill
             else:
                 ths.append(prog(rng, alphabet, k, fresh))
         m = mode(rng) if callable(mode) else mode
-        out.append(conc.Scn("%s%d" % (prefix, i), kind, list(range(1, npre + 1)), ths, m, opts))
+        out.append(conc.Scn("%s%d" % (prefix, i), kind, pre, ths, m, opts))
     return out
 
 FIFO = ["o", "o", "p", "p", "k", "e"]
@@ -54,6 +89,7 @@ def gen_c01(tier, rng):
     s += gen_family(rng, "c", "jdk", FIFO, scale(tier, 16, 200), [3, 4], [2, 3, 4], lambda r: "rand %d %d" % (scale(tier, 300, 3000), r.randint(1, 1 << 30)), prefill_max=3)
     s += gen_family(rng, "m", "mutex", FIFO, scale(tier, 8, 60), [2, 3], [2, 3], "dfs 2 %d" % scale(tier, 2000, 30000))
     s += gen_family(rng, "n", "mutex", FIFO, scale(tier, 6, 60), [3, 4], [2, 3], lambda r: "rand %d %d" % (scale(tier, 200, 2000), r.randint(1, 1 << 30)))
+    s += gen_lag_sweep(tier, rng, "s", mode=lambda r: "rand %d %d" % (scale(tier, 12, 60), r.randint(1, 1 << 30)))
     return s
 
 def gen_c07(tier, rng):
@@ -64,6 +100,10 @@ def gen_c07(tier, rng):
     s += gen_family(rng, "c", "jdk", full, scale(tier, 10, 100), [3, 4], [3, 4, 5], lambda r: "rand %d %d" % (scale(tier, 300, 3000), r.randint(1, 1 << 30)), prefill_max=4)
     # a goroutine suspended for good at every one of its access points: everybody else must still finish
     s += gen_family(rng, "f", "jdk", ["o", "o", "p", "p", "k", "z"], scale(tier, 16, 150), [3], [2, 3, 4], lambda r: "freeze %d %d" % (scale(tier, 3, 12), r.randint(1, 1 << 30)), prefill_max=3)
+    # the same from lagging head / tail shapes (set-up scripts of Offer and Poll bursts)
+    s += gen_family(rng, "g", "jdk", ["o", "o", "p", "p", "k"], scale(tier, 24, 200), [2, 3], [1, 2, 3], lambda r: "freeze %d %d" % (scale(tier, 3, 12), r.randint(1, 1 << 30)), script=lag_script)
+    s += gen_family(rng, "l", "jdk", full, scale(tier, 16, 150), [2, 3], [2, 3], lambda r: "solo %d %d" % (scale(tier, 300, 3000), r.randint(1, 1 << 30)), script=lag_script)
+    s += gen_lag_sweep(tier, rng)
     return s
 
 def gen_two_iters(tier, rng, count):
@@ -83,12 +123,32 @@ def gen_two_iters(tier, rng, count):
         out.append(conc.Scn("w%d" % i, "jdk", list(range(1, npre + 1)), ths, m))
     return out
 
+def gen_iter_pairs(tier, rng):
+    """every pair of short traversals-with-removes over the same elements, all interleavings with up to two
+    (thorough: three) preemptions: one iterator removing what the other has captured / returned last"""
+    walks = ["nnn", "nnr", "nrn", "nnnr", "nnrn", "nrnn", "nrnr"]
+    out = []
+    for i, a in enumerate(walks):
+        for b in walks[i:]:
+            if "r" not in a + b:
+                continue
+            npre = rng.choice([3, 4])
+            out.append(conc.Scn("y%s_%s" % (a, b), "jdk", list(range(1, npre + 1)), [["i"] + list(a), ["i"] + list(b)],
+                                "dfs %d %d" % (scale(tier, 2, 3), scale(tier, 3000, 60000))))
+    return out
+
 def gen_c13(tier, rng):
     s = gen_two_iters(tier, rng, scale(tier, 14, 120))
+    s += gen_iter_pairs(tier, rng)
     alpha = ["o", "p", "p", "o"]
     s += gen_family(rng, "a", "jdk", alpha, scale(tier, 24, 150), 2, [2, 3, 4], "dfs 2 %d" % scale(tier, 4000, 60000), prefill_max=3, iter_threads=1)
     s += gen_family(rng, "b", "jdk", alpha, scale(tier, 10, 80), 3, [2, 3], "dfs 2 %d" % scale(tier, 4000, 60000), prefill_max=3, iter_threads=2)
     s += gen_family(rng, "c", "jdk", alpha, scale(tier, 16, 200), [3, 4], [3, 4, 5], lambda r: "rand %d %d" % (scale(tier, 300, 3000), r.randint(1, 1 << 30)), prefill_max=4, iter_threads=2)
+    ipats = [lambda v: [["i", "n", "n", "r", "n"], ["p", "o%d" % v]],
+             lambda v: [["i", "n", "r", "n", "n"], ["o%d" % v, "p"]],
+             lambda v: [["i", "n", "n", "r"], ["i", "n", "r", "n"]],
+             lambda v: [["i", "h", "n", "r", "n"], ["p"], ["o%d" % v]]]
+    s += gen_lag_sweep(tier, rng, "s", mode=lambda r: "rand %d %d" % (scale(tier, 12, 60), r.randint(1, 1 << 30)), pats=ipats)
     return s
 
 def gen_c15(tier, rng):
